@@ -81,7 +81,7 @@ def make_order(name, tree, rng):
     raise ValueError(name)
 
 
-IMPLS = ("default", "cotengra", "autoray", "recorder")
+IMPLS = ("default", "cotengra", "autoray", "recorder", "ctx:cotengra", "ctx:autoray")
 ROUTES = ("contract", "contract", "contract_core", "get_contractor", "get_contractor_call_opts", "make_contractor")
 
 SORTS = (
@@ -160,7 +160,13 @@ def contract_with(tree, arrays, opts, rng, recorder=None):
     import contextlib
     import io
 
-    with contextlib.redirect_stderr(io.StringIO()) if kw.get("progbar") else contextlib.nullcontext():
+    ctx = contextlib.nullcontext()
+    if isinstance(impl, str) and impl.startswith("ctx:"):
+        # the implementation chosen through the process-wide default instead of the argument
+        from cotengra.contract import default_implementation
+
+        ctx = default_implementation(impl[4:])
+    with ctx, contextlib.redirect_stderr(io.StringIO()) if kw.get("progbar") else contextlib.nullcontext():
         if route == "contract":
             return tree.contract(arrays, **kw)
         if route == "contract_core":
